@@ -60,6 +60,7 @@ def check_history_shape(h, obs, python: bool):
 def run(ctx: Ctx):
     n_hist = 300 if ctx.tier == "quick" else 6000
     ctx.translate("gen_runtime")
+    ctx.translate("gen_runtime_cpp")
     ctx.prove("Props/C11.v")
     ctx.make(["Model/RuntimeExec.vo"])
     ctx.trusted += [
